@@ -68,6 +68,9 @@ type stOp struct {
 	Veto  bool   `json:"veto,omitempty"`
 	Wrong bool   `json:"wrong,omitempty"`
 	Bad   bool   `json:"bad,omitempty"` // value of the right type that cannot be encoded (NaN)
+	// Same (update only): the value written is the one the transaction has just read - a
+	// successful mutation like any other (callbacks run, with before equal to after)
+	Same bool `json:"same,omitempty"`
 }
 
 type stRes struct {
@@ -133,6 +136,9 @@ func c11Apply(state string, op stOp) (stRes, string) {
 		if op.Bad {
 			return stRes{Class: "unencodable"}, state
 		}
+		if op.Same {
+			return stRes{Class: "ok"}, state
+		}
 		return stRes{Class: "ok"}, op.UID
 	case "delete":
 		if state == "" {
@@ -179,6 +185,11 @@ func c11Exec(k storeKind, rt store.ReadTxn, wt store.WriteTxn, op stOp) stRes {
 			v = mkUnencodable(k.Typed, op.UID, "")
 		}
 		var err error
+		if op.Same {
+			if cur, verr := wt.Value(); verr == nil {
+				v = cur
+			}
+		}
 		if op.Kind == "create" {
 			err = wt.Create(v)
 		} else {
@@ -218,8 +229,10 @@ func c11RandOps(r *rand.Rand, k storeKind, write bool, uid func() string) []stOp
 		switch v := r.Intn(20); {
 		case v < 5:
 			ops = append(ops, stOp{Kind: "create", UID: uid()})
-		case v < 10:
+		case v < 9:
 			ops = append(ops, stOp{Kind: "update", UID: uid()})
+		case v < 10:
+			ops = append(ops, stOp{Kind: "update", UID: uid(), Same: true})
 		case v < 13:
 			ops = append(ops, stOp{Kind: "delete"})
 		case v < 16:
@@ -636,7 +649,7 @@ func c11Sequential(c *core.Ctx, k storeKind, ns string) bool {
 			if gotCmp != want {
 				desc["got"], desc["want"] = got, want
 				c.Violation(fmt.Sprintf("C11/seq-result:%s:%s:got=%s:want=%s:emptyid=%v", k.Impl, op.Kind, short(got.Class, 30), want.Class, cur == ""), fmt.Sprintf("write txn %s on id %q (store %s): got %+v, reference map says %+v", op.Kind, cur, k, got, want), desc)
-				if got.Class == "ok" && (op.Kind == "create" || op.Kind == "update") {
+				if got.Class == "ok" && (op.Kind == "create" || op.Kind == "update") && !op.Same {
 					nst = op.UID // follow the store to avoid cascading reports
 				}
 			}
@@ -666,6 +679,9 @@ func c11Sequential(c *core.Ctx, k storeKind, ns string) bool {
 					wantAfter := op.UID
 					if op.Kind == "delete" {
 						wantAfter = ""
+					}
+					if op.Same {
+						wantAfter = state
 					}
 					if lastCB.ID != cur || lastCB.Before != state || lastCB.After != wantAfter || lastCB.G != myG {
 						desc["callback"] = *lastCB
